@@ -183,7 +183,8 @@ struct GridMeta {
   // operations re-scaled for faster later calculations; identity not included
   std::vector<GridOp> get_scaled_ops_except_id() const {
     std::vector<GridOp> grid_ops;
-    if (!spacegroup || spacegroup->number == 1)
+    // P1 has no operations except identity (but A1, B1, C1, F1, I1 have centering)
+    if (!spacegroup || (spacegroup->number == 1 && spacegroup->centring_type() == 'P'))
       return grid_ops;
     if (axis_order != AxisOrder::XYZ)
       fail("grid can use symmetries only if it is setup in the XYZ order");
@@ -773,10 +774,11 @@ struct Grid : GridBase<T> {
   }
   void symmetrize_avg() {
     symmetrize_sum();
-    if (spacegroup && spacegroup->number != 1) {
+    if (spacegroup) {
       int n_ops = spacegroup->operations().order();
-      for (T& x : data)
-        x /= n_ops;
+      if (n_ops != 1)
+        for (T& x : data)
+          x /= n_ops;
     }
   }
 
